@@ -259,7 +259,9 @@ def make_root(case, workdir):
         exp = ParsedPlot(out).to_refplot()
         return State(out, exp, ["chk2plt"], 0), None, True
     name, d, s = [r for r in roots(seed) if r[0] == case["root"]][0]
-    p, ref = build(d, workdir, "root")
+    # (the 3D two-level root is always named through `link/../root`, with a look-alike at the place that spelling names as text;
+    # its sibling and the other roots take the form their descriptor hashes to)
+    p, ref = build(d, workdir, "root", pathform="dotdot" if name == "3d2" else None)
     ps, refs = build(s, workdir, "sibling")
     return State(p, ref, ["root"], 0), State(ps, refs, ["sibling"], 0), False
 
